@@ -299,9 +299,13 @@ func (rn *runner) compute(ctx context.Context) (interface{}, error) {
 		atomic.AddInt32(&m.hits.Purge, 1)
 		reactive.PurgeCache(ctx)
 	}
-	if rn.comp.ExpireMs > 0 && run == 1 {
+	if rn.comp.ExpireMs != 0 && run == 1 {
 		atomic.AddInt32(&m.hits.Expire, 1)
-		reactive.InvalidateAfter(ctx, time.Duration(rn.comp.ExpireMs)*time.Millisecond)
+		d := time.Duration(rn.comp.ExpireMs) * time.Millisecond
+		if d < 0 {
+			d = time.Duration(rn.comp.ExpireMs+1) * time.Millisecond // -1: already expired (0), -2: in the past
+		}
+		reactive.InvalidateAfter(ctx, d)
 	}
 	seen := map[int]int{}
 	fire := func(at int, after bool) {
@@ -523,6 +527,12 @@ func Run(c Case, checkCleanup bool) (Result, string, error) {
 				stale = fmt.Sprintf("rerunner %d never completed a run", rn.idx)
 				continue
 			}
+			if rn.comp.ExpireMs != 0 && lastOK < 2 && atomic.LoadInt32(&rn.runs) < 2 {
+				// its first run asked to be invalidated after a delay (possibly one that had
+				// already expired): it has to run again
+				stale = fmt.Sprintf("rerunner %d: its first run called InvalidateAfter(%dms) and it has not run again", rn.idx, rn.comp.ExpireMs)
+				continue
+			}
 			var keys []int
 			for k := range seen {
 				keys = append(keys, k)
@@ -550,7 +560,7 @@ func Run(c Case, checkCleanup bool) (Result, string, error) {
 	if c.Foreign {
 		timers := false
 		for _, comp := range c.Comps {
-			if comp.ExpireMs > 0 {
+			if comp.ExpireMs != 0 {
 				timers = true
 			}
 		}
@@ -767,7 +777,7 @@ func Gen(t *rapid.T, cacheDepth int, hooks bool) Case {
 			comp.PurgeOnRun = rapid.IntRange(1, 3).Draw(t, "purgerun")
 		}
 		if cacheDepth > 0 && rapid.IntRange(0, 5).Draw(t, "expire") == 0 {
-			comp.ExpireMs = rapid.IntRange(1, 3).Draw(t, "expirems")
+			comp.ExpireMs = rapid.SampledFrom([]int{1, 2, 3, -1, -2}).Draw(t, "expirems")
 		}
 		c.Comps = append(c.Comps, comp)
 		c.PreCancel = append(c.PreCancel, rapid.IntRange(0, 9).Draw(t, "precancel") == 0)
